@@ -70,6 +70,7 @@ type Exec struct {
 	bounded   int
 	boundHits int
 	stdOK     map[*ssa.Function]bool
+	misfit    bool // the contract is keyed to a function literal that is not this one any more
 	curPath string
 	// entry values for old()
 	entry *State
@@ -341,9 +342,16 @@ func (e *Exec) execBlock(fr *frame, b *ssa.BasicBlock, pred *ssa.BasicBlock, st 
 	}
 	if li, ok := fr.loops[b]; ok {
 		unroll := li.spec != nil && li.spec.Unroll > 0
+		if unroll && e.bounded > 0 {
+			// loop clauses are keyed by ordinal: they are anchored only while the function has the loops it had
+			if n, ok := pinnedLoops[fnName(fr.fn)]; !ok || n != len(fr.loops) {
+				unroll = false
+			}
+		}
 		if e.bounded > 0 && !unroll {
 			// the bound is on the total number of loop iterations (back edges of any loop) along a path
 			if pred != nil && li.body[pred] {
+				e.terminationStep(fr, li, b, pred, st)
 				st.backEdges++
 				if st.backEdges > e.bounded {
 					e.boundHits++
@@ -490,6 +498,9 @@ func (e *Exec) loopHeader(fr *frame, li *loopInfo, b, pred *ssa.BasicBlock, st *
 		li.spec = &LoopSpec{}
 	}
 	fromInside := pred != nil && li.body[pred]
+	if fromInside {
+		e.terminationStep(fr, li, b, pred, st)
+	}
 	// bind phis to incoming values for evaluating the invariant
 	e.evalPhis(b, pred, st)
 	// inferred counter bounds for bottom-tested counting loops (e.g. range-over-int): checked like
@@ -707,6 +718,155 @@ type pointWrite struct {
 	base ssa.Value
 	cls  string // heap symbol prefix (class + field path)
 	arr  bool   // base is a slice: the write goes into its backing array (all cells of that array may change)
+}
+
+// autoTermination: a loop whose header ends in `if x < y` (or <=, >, >=) where one side is an integer phi of
+// the header and the other side does not change while the loop runs (defined outside the loop, a constant, or
+// a side-effect free accessor / len of such values) terminates if the phi moves strictly towards the bound
+// on every back edge. Returns the phi and the direction (+1: must increase, -1: must decrease).
+func (e *Exec) autoTermination(li *loopInfo, h *ssa.BasicBlock) (*ssa.Phi, int, bool) {
+	if len(h.Instrs) == 0 {
+		return nil, 0, false
+	}
+	ifi, ok := h.Instrs[len(h.Instrs)-1].(*ssa.If)
+	if !ok {
+		return nil, 0, false
+	}
+	bo, ok := ifi.Cond.(*ssa.BinOp)
+	if !ok {
+		return nil, 0, false
+	}
+	// the true branch must stay in the loop, the false branch leave it (or the reverse, with the comparison negated)
+	stay := li.body[h.Succs[0]] && !li.body[h.Succs[1]]
+	if !stay {
+		return nil, 0, false
+	}
+	var invariant func(v ssa.Value, depth int) bool
+	invariant = func(v ssa.Value, depth int) bool {
+		switch x := v.(type) {
+		case *ssa.Const, *ssa.Parameter, *ssa.FreeVar, *ssa.Global:
+			return true
+		case ssa.Instruction:
+			if !li.body[x.Block()] {
+				return true
+			}
+			if depth > 3 {
+				return false
+			}
+			if c, ok := x.(*ssa.Call); ok {
+				cm := c.Common()
+				if b, ok := cm.Value.(*ssa.Builtin); ok && (b.Name() == "len" || b.Name() == "cap") {
+					// len of a value the loop does not reassign; a slice that is appended to is a phi or reloaded, not invariant
+					return invariant(cm.Args[0], depth+1)
+				}
+				var fobj *types.Func
+				if cm.IsInvoke() {
+					fobj = cm.Method
+				} else if cal := cm.StaticCallee(); cal != nil {
+					fobj, _ = cal.Object().(*types.Func)
+				}
+				if fobj == nil || fobj.Pkg() == nil || !pureAccessorPkgs[fobj.Pkg().Path()] {
+					return false
+				}
+				if cm.IsInvoke() && !invariant(cm.Value, depth+1) {
+					return false
+				}
+				for _, a := range cm.Args {
+					if !invariant(a, depth+1) {
+						return false
+					}
+				}
+				return true
+			}
+			return false
+		}
+		return false
+	}
+	isPhi := func(v ssa.Value) *ssa.Phi {
+		if p, ok := v.(*ssa.Phi); ok && p.Block() == h {
+			if bt, ok := p.Type().Underlying().(*types.Basic); ok && bt.Info()&types.IsInteger != 0 {
+				return p
+			}
+		}
+		return nil
+	}
+	switch bo.Op {
+	case token.LSS, token.LEQ:
+		if p := isPhi(bo.X); p != nil && invariant(bo.Y, 0) {
+			return p, +1, true
+		}
+		if p := isPhi(bo.Y); p != nil && invariant(bo.X, 0) {
+			return p, -1, true
+		}
+	case token.GTR, token.GEQ:
+		if p := isPhi(bo.X); p != nil && invariant(bo.Y, 0) {
+			return p, -1, true
+		}
+		if p := isPhi(bo.Y); p != nil && invariant(bo.X, 0) {
+			return p, +1, true
+		}
+	}
+	return nil, 0, false
+}
+
+func isRangeLoop(li *loopInfo) bool {
+	for _, in := range li.header.Instrs {
+		if phi, ok := in.(*ssa.Phi); ok && phi.Comment == "rangeindex" {
+			return true
+		}
+	}
+	for _, in := range li.header.Instrs {
+		if _, ok := in.(*ssa.Next); ok {
+			return true
+		}
+	}
+	return false
+}
+
+// terminationStep: on a back edge into h, the obligation that the counter found by autoTermination moves
+// towards its bound (called before the phis are re-bound: st.env still holds the values of the iteration
+// that just ended).
+func (e *Exec) terminationStep(fr *frame, li *loopInfo, h, pred *ssa.BasicBlock, st *State) {
+	if li.spec != nil && li.spec.Decreases != nil {
+		return
+	}
+	if li.spec != nil && li.spec.AssumeTerm != "" {
+		if n, okp := pinnedLoops[fnName(fr.fn)]; (okp && n == len(fr.loops)) || e.bounded == 0 {
+			return // argued in the contract (listed as an assumption)
+		}
+	}
+	if isRangeLoop(li) {
+		return // a range loop visits each element once
+	}
+	phi, dir, ok := e.autoTermination(li, h)
+	if !ok {
+		e.oblige(st, fmt.Sprintf("%s/loop%d/terminates", fnName(fr.fn), li.ordinal), e.propsFor(fr, "safety"), BoolLit(false),
+			"no termination argument for this loop: it is not a range loop, its condition is not a counter compared with a bound the loop leaves unchanged, and the contract gives no measure (`loop k decreases`) for it; "+e.ld.pos(h.Instrs[0].Pos()))
+		return
+	}
+	old, ok := st.env[phi]
+	if !ok || len(old.L) != 1 {
+		return
+	}
+	idx := -1
+	for i, p := range h.Preds {
+		if p == pred {
+			idx = i
+		}
+	}
+	if idx < 0 {
+		return
+	}
+	nv := e.val(st, phi.Edges[idx])
+	if len(nv.L) != 1 {
+		return
+	}
+	goal := Gt(nv.L[0], old.L[0])
+	if dir < 0 {
+		goal = Lt(nv.L[0], old.L[0])
+	}
+	e.oblige(st, fmt.Sprintf("%s/loop%d/terminates", fnName(fr.fn), li.ordinal), e.propsFor(fr, "safety"), goal,
+		"the loop counter moves strictly towards the bound of the loop condition on every iteration (inferred termination argument)")
 }
 
 // autoBounds recognises a counting phi x of header h whose entry edge and back edge are both taken
@@ -1403,6 +1563,12 @@ func (e *Exec) step(fr *frame, in ssa.Instruction, st *State) {
 		}
 		a := &Addr{Kind: AObj, Class: typeKey(et), Ref: r, T: et}
 		e.store(st, a, zeroSV(et))
+		if typeKey(et) == "strings.Builder" {
+			// ghost content of a fresh builder
+			name := heapSym("H", "strings.Builder", ".ghost")
+			h := e.heapGet(st, name, ArrSort(SInt, SString))
+			e.heapSet(st, name, Store(h, r, StrLit("")))
+		}
 		st.env[x] = scalar(x.Type(), r)
 	case *ssa.FieldAddr:
 		base := e.val(st, x.X)
